@@ -67,6 +67,11 @@ CLAIMED = {
    text=('Theorems for every list of in-place writes and every heap: the restores of a reverse sweep fed with the contents saved on this evaluation return the buffers to their initial state, re-applying the writes returns '
          'the forward values, hence any number of sweeps leave the forward values intact; counterexamples for stale stores and missing re-apply (the old behaviour). Random call histories (forward evaluations, sweeps, all drivers, '
          'second graphs) are checked call by call against fresh graphs, with node-value snapshots around cg.pullback (partial: read-only-ness of pullback kernels has no theorem).')),
+ 'C13': dict(
+   technique='Lean 4 theorems (index-map algebra of a mini-NumPy: the (:,:)++idx prefix law for every basic index expression, sum axis arithmetic) + mini-NumPy-vs-NumPy and slice-wise correspondence',
+   text=('Theorems for all D, P, shapes and every basic index expression (ints, negative ints, slices with steps, Ellipsis, newaxis): UTPM indexing is the same index map applied to every coefficient slice, its elements are '
+         'elements (cells) of the parent, and UTPM.sum(axis) addresses the coefficient axis NumPy addresses on a slice. The indexing model itself is validated against real NumPy (random + exhaustive small expressions). '
+         'reshape/transpose/tile/diag/tri*/trace/conj/real/imag/fft/zeros/ones/symvec/vecsym and item assignment (UTPM, ndarray, scalar right-hand sides, write-through, shares_memory) are checked slice-wise against NumPy (partial: no theorem).')),
 }
 _todo = 'check under construction in this session: Lean model/theorems and correspondence not committed yet'
 NOT_APPLICABLE = {('C%02d' % i): _todo for i in range(1, 18)}
